@@ -13,7 +13,8 @@ VARIABLES cur,               \* the sender's stored output object (id)
 F == INSTANCE Filters
 UNDEF == F!UNDEF
 
-Equal(cls, a, b) == a # UNDEF /\ b # UNDEF /\ cls[a] = cls[b]      \* Python ==
+(* Python ==; class 0 = a value that is not equal to anything, itself included (NaN) *)
+Equal(cls, a, b) == a # UNDEF /\ b # UNDEF /\ cls[a] = cls[b] /\ cls[a] # 0
 
 Data(prev, val) == [previous |-> prev, value |-> val, source |-> SRC, trigger |-> TRIG]
 
